@@ -320,6 +320,10 @@ def c28_judge(work, res):
         bad.append({"clause": "keeps_running", "detail": detail})
         if cls != "panic":
             return bad
+    if any(p.startswith("textDocument/did") for p in res.get("dispatch_panics", [])):
+        # the dispatcher died inside a notification (already reported above): that notification was
+        # not applied, so a lagging copy afterwards is its consequence, not a second finding
+        return bad
     snaps = {}
     for s in res.get("snapshots", []):
         snaps.setdefault(s["step"], {})[s["uri"]] = s
@@ -393,7 +397,6 @@ def c28_explore_one(seed, idx, w, d):
 
 def c28_minimise(seed, idx, hist, bad, w, d, budget_s):
     from common import ddmin
-    t_end = time.time() + budget_s
     sig = sig_of(bad)
     extra = sched_args(seed, "C28", idx)
 
@@ -414,16 +417,15 @@ def c28_minimise(seed, idx, hist, bad, w, d, budget_s):
         return h
 
     def test(sub):
-        if time.time() > t_end:
-            return False
         ok, _ = fails(rebuild(sub))
         return ok
 
-    kept = ddmin(rest, test, max_tests=80)
+    # budgets are counts of server runs, never wall-clock
+    kept = ddmin(rest, test, max_tests=budget_s)
     h = rebuild(kept)
     # drop documents that are never changed
     changed_docs = {e[1] for e in h["events"] if e[0] == "change"}
-    if changed_docs and time.time() < t_end:
+    if changed_docs:
         h2 = dict(h)
         h2["events"] = [e for e in h["events"] if not (e[0] in ("open", "save") and e[1] not in changed_docs)
                         and not (e[0] == "req" and e[2] not in changed_docs)]
@@ -484,7 +486,7 @@ def run_c28(tier, seed, replay=None):
     pool = Pool("c28")
     try:
         results = pool.map(lambda idx, w, d: c28_explore_one(seed, idx, w, d), list(range(n)),
-                           deadline=t0 + (900 if tier == "quick" else 5400))
+                           deadline=t0 + (2400 if tier == "quick" else 9000))
         results = [r for r in results if r is not None]
         mism = [r["mismatch"] for r in results if r["mismatch"]]
         if mism:
@@ -496,7 +498,7 @@ def run_c28(tier, seed, replay=None):
             log(f'   history {r["idx"]}: {sig_of(r["bad"])} {json.dumps(r["bad"][0])[:200]}')
 
         def mini(r, w, d):
-            h, b, sig = c28_minimise(seed, r["idx"], r["hist"], r["bad"], w, d, 60 if tier == "quick" else 180)
+            h, b, sig = c28_minimise(seed, r["idx"], r["hist"], r["bad"], w, d, 80 if tier == "quick" else 200)
             return {"idx": r["idx"], "hist": h, "bad": b, "sig": sig}
         minis = pool.map(mini, failing[:48])
         seen = set()
@@ -820,7 +822,6 @@ def valid_c29(hist):
 
 def c29_minimise(seed, idx, hist, bad, w, d, budget_s):
     from common import ddmin
-    t_end = time.time() + budget_s
     sig = sig_of(bad)
     rest = [(i, e) for i, e in enumerate(hist["events"]) if e[0] != "open"]
 
@@ -831,12 +832,10 @@ def c29_minimise(seed, idx, hist, bad, w, d, budget_s):
         return h
 
     def test(sub):
-        if time.time() > t_end:
-            return False
         h = rebuild(sub)
         return valid_c29(h) and c29_fails(seed, idx, h, w, d, sig)[0]
 
-    kept = ddmin(rest, test, max_tests=60)
+    kept = ddmin(rest, test, max_tests=budget_s)
     h = rebuild(kept)
     # shrink the opened text: drop lines that no change touches (from the end)
     ok, b = c29_fails(seed, idx, h, w, d, sig)
@@ -909,7 +908,7 @@ def run_c29(tier, seed, replay=None):
     pool = Pool("c29")
     try:
         results = pool.map(lambda idx, w, d: c29_explore_one(seed, idx, w, d), list(range(n)),
-                           deadline=t0 + (900 if tier == "quick" else 5400))
+                           deadline=t0 + (2400 if tier == "quick" else 9000))
         results = [r for r in results if r is not None]
         mism = [r["mismatch"] for r in results if r["mismatch"]]
         if mism:
@@ -921,7 +920,7 @@ def run_c29(tier, seed, replay=None):
             log(f'   history {r["idx"]}: {sig_of(r["bad"])} {c29_predicates(r["hist"])} {json.dumps(r["bad"][0])[:300]}')
 
         def mini(r, w, d):
-            h, b, sig = c29_minimise(seed, r["idx"], r["hist"], r["bad"], w, d, 90 if tier == "quick" else 240)
+            h, b, sig = c29_minimise(seed, r["idx"], r["hist"], r["bad"], w, d, 60 if tier == "quick" else 150)
             # does it need preemption? the same history under the default (never preempt) schedule
             under_default, _ = c29_fails(seed, r["idx"], h, w, d, sig, sched=["--sched", "default"])
             return {"idx": r["idx"], "hist": h, "bad": b, "sig": sig, "only_under_preemption": not under_default}
